@@ -297,6 +297,7 @@ CHECKS["C03"] = {
     "harnesses": [
         H("c11.VH_relay", {"PEERS": 1, "BL": 3, "DL": 3, "UPL": 3}, {"PEERS": 1, "BL": 4, "DL": 4, "UPL": 4}, variant="one-peer", covers=["relayed"], weight=2, **_envonly),
         H("c11.VH_relay", {"PEERS": 2, "BL": 2, "DL": 2, "UPL": 2}, {"PEERS": 2, "BL": 3, "DL": 3, "UPL": 3}, variant="two-peers", covers=["relayed"], weight=5, **_envonly),
+        H("c11.VH_relay_wrapped", {"params": {"DL": 2, "UPL": 2}}, {"params": {"DL": 3, "UPL": 3}}, covers=["relayed behind a wrapping handler"], weight=1, **_envonly),
         # the relay starts where matching left the connection: freeze/unfreeze restore the read position from any state
         H("c01.VH_match_step", {}, {}, covers=["matcher read bytes"]),
     ],
